@@ -385,7 +385,7 @@ type c14Gen struct {
 	created int
 }
 
-var c14Amts = []string{"1000000000", "4000000000", "9000000000", "10000000000", "1", "2500000000", "12000000000"}
+var c14Amts = []string{"1000000000", "4000000000", "9000000000", "10000000000", "1", "2500000000", "12000000000", "9000000000", "8000000000"}
 
 func (r *c14Run) userKey(ai int) Key {
 	if ai < c14NUsers {
@@ -519,7 +519,7 @@ func (r *c14Run) randomOp(g *c14Gen, h int64) {
 				}
 			}
 		}
-		if len(c) == 0 || rnd.Intn(7) == 0 {
+		if len(c) == 0 || rnd.Intn(12) == 0 {
 			if np == 0 {
 				return -1
 			}
@@ -529,7 +529,7 @@ func (r *c14Run) randomOp(g *c14Gen, h int64) {
 	}
 	k := rnd.Intn(100)
 	switch {
-	case k < 14 || np == 0:
+	case k < 12 || np == 0:
 		ty := rnd.Intn(3)
 		proposer := c14Pick(rnd, users)
 		amount := []string{"1000000000", "2000000000", "5000000000", "999999999", "10000000000", "9999999999"}[rnd.Intn(6)]
@@ -563,7 +563,7 @@ func (r *c14Run) randomOp(g *c14Gen, h int64) {
 			}
 		}
 		r.doCreate(ty, proposer, amount, fdl, vdl, goal, pass, cfg, valid)
-	case k < 36:
+	case k < 32:
 		id := anyID(func(p *c14PObs) bool { return p.Stores == 1 && p.Status == 0 })
 		if id < 0 {
 			return
@@ -576,7 +576,7 @@ func (r *c14Run) randomOp(g *c14Gen, h int64) {
 		}
 		voters := []int{r.acct(r.cw.w.Vals[0].Val.Addr), r.acct(r.cw.w.Vals[1].Val.Addr), r.acct(r.cw.w.Vals[2].Val.Addr)}
 		v := c14Pick(rnd, voters)
-		switch rnd.Intn(12) {
+		switch rnd.Intn(16) {
 		case 0:
 			v = r.acct(r.cw.w.Extra[0].Val.Addr)
 		case 1:
@@ -630,7 +630,7 @@ func (r *c14Run) randomOp(g *c14Gen, h int64) {
 			ben = c14Pick(rnd, users)
 		}
 		r.doWithdraw(id, funder, amount, ben)
-	case k < 88:
+	case k < 86:
 		id := anyID(func(p *c14PObs) bool { return p.Stores == 1 })
 		if id < 0 {
 			return
